@@ -18,6 +18,40 @@ def group_c02(g, n):
         p = g.prec(big=r.random() < 0.1)
         rnd = g.mode()
         c = r.random()
+        if r.random() < 0.08:
+            # hard cases built from the exact oracle: the exact result lies a hair away from a p-bit number or from a
+            # midpoint between two p-bit numbers (rounding boundary), so that only exact sticky-bit handling gets it right
+            pb = min(p, 300)
+            q = g.mant(pb, pb)                                   # the p-bit neighbour
+            half = r.random() < 0.5                              # ... or the midpoint q + 1/2 ulp
+            Q2 = 2 * q + (1 if half else 0)                      # boundary = Q2 / 2 in units of the last place
+            tiny = r.choice([0, 1, -1, 1, -1]) 
+            j = r.randint(2, pb + 64)
+            lvl = "libmp"
+            which = r.choice(["sqrt", "div", "div", "add", "mul"])
+            if which == "sqrt":
+                # x = (Q2/2)^2 * (1 + tiny 2^-j) as an exact dyadic
+                num = Q2 * Q2 * (1 << j) + tiny * Q2 * Q2 // max(1, Q2.bit_length()) if False else (Q2 * Q2 << j) + tiny
+                x = gen.mk(num, r.randint(-40, 40) * 2 - 2 - j)
+                out.append(case("sqrt", lvl, [A_f(x)], pb, rnd))
+            elif which == "div":
+                d = g.mant(r.randint(1, pb), pb)
+                num = (Q2 * d << j) + tiny
+                out.append(case("div", lvl, [A_f(gen.mk(num * r.choice([1, -1]), r.randint(-40, 40) - j - 1)), A_f(gen.mk(d * r.choice([1, -1]), r.randint(-40, 40)))], pb, rnd))
+            elif which == "add":
+                a = g.mant(r.randint(1, pb + 20), pb)
+                tot = (Q2 << j) + tiny                            # exact sum a + b = tot * 2^-(j+1): b = tot - a*2^k
+                sh = r.randint(0, j)
+                b = tot - (a << sh)
+                if b == 0:
+                    continue
+                sg = r.choice([1, -1])
+                out.append(case("add", lvl, [A_f(gen.mk(sg * a, sh - j - 1)), A_f(gen.mk(sg * b, -j - 1))], pb, rnd))
+            else:
+                # product of two odd numbers close to a boundary is not constructible in general: use squares of midpoints
+                a = g.mant(pb // 2 + r.randint(0, 3), pb) | 1
+                out.append(case("mul", lvl, [A_f(gen.mk(a * r.choice([1, -1]), r.randint(-30, 30))), A_f(gen.mk(((Q2 << j) + tiny) // a | 1, r.randint(-30, 30)))], pb, rnd))
+            continue
         if c < 0.55:
             op = r.choice(BINOPS)
             x, y = g.pair(p)
@@ -36,6 +70,14 @@ def group_c02(g, n):
                 if r.random() < 0.5:
                     x, y = y, x
             lvl = r.choice(["libmp", "libmp", "oper", "ffun"])
+            if op in ("mul", "div") and r.random() < 0.12:
+                # the integer-operand entry points of libmp, in every rounding mode
+                n_ = r.choice([r.randint(-1000, 1000), r.getrandbits(r.randint(1, 200)) * r.choice([1, -1]), 2 ** r.randint(0, 70) * r.choice([1, -1]), 3, -3, -1]) or 7
+                if op == "mul":
+                    out.append(case("mul", "libmpint", [A_f(x), A_z(n_)], p, rnd))
+                elif x[1]:
+                    out.append(case("div", "libmpint", [A_z(n_), A_f(x)], p, rnd))
+                continue
             if lvl == "oper":
                 rnd = "n"
             t = r.random()
@@ -106,6 +148,21 @@ def group_c02(g, n):
                 cc = case("dot", "oper", [A_l([A_f(t) for t in terms2]), A_l([A_f(t) for t in ys])], p, "n")
                 if dot_side_ok(cc):
                     out.append(cc)
+    return out
+
+
+def group_intops(g, n):
+    """the integer-operand entry points (mpf_mul_int, mpf_rdiv_int: backend-specific implementations), all modes"""
+    r = g.r
+    out = []
+    while len(out) < n:
+        p = g.prec(); rnd = g.mode()
+        x = g.mpf(p, special=0.03)
+        n_ = r.choice([r.randint(-1000, 1000), r.getrandbits(r.randint(1, 200)) * r.choice([1, -1]), 2 ** r.randint(0, 70) * r.choice([1, -1]), 3, -3, -1, 10, -10]) or 7
+        if r.random() < 0.7:
+            out.append(case("mul", "libmpint", [A_f(x), A_z(n_)], p, rnd))
+        elif x[1]:
+            out.append(case("div", "libmpint", [A_z(n_), A_f(x)], p, rnd))
     return out
 
 
